@@ -98,6 +98,8 @@ def overlapping_reuse(c, rng, ver):
 
 
 def generate(rng, tier, seed):
+    from props.tr31util import digit_payload_cases
+    yield from digit_payload_cases(rng)
     for ver in "ABCD":
         for _ in range(12 if tier == "quick" else 60):
             c = Case(f"{ver}:reused-object:overlapping-blocks", {})
@@ -143,8 +145,8 @@ def generate(rng, tier, seed):
             scenario(c, rng, ver, ks, keylen, None, [])
             yield c
         # block layouts: short/extended length boundary, many blocks, large blocks, limit of 99 blocks and 9999 characters
-        for lens in ([247, 248, 249, 250, 251, 252, 253, 254, 255, 256], [300, 1000], [0], [3000], [9000], [4700, 4800]):
-            for n in (1, 2, 3):
+        for lens in ([247, 248, 249, 250, 251, 252, 253, 254, 255, 256], [300, 1000], [0], [3000], [9000], [4700, 4800], [252, 256, 300]):
+            for n in (1, 2, 3, 5):
                 c = Case(f"{ver}:block-lengths", {"lens": lens, "n": n})
                 scenario(c, rng, ver, ks, 16, None, rand_blocks(rng, n, lens))
                 yield c
